@@ -3,10 +3,11 @@
 and write seeded/RESULTS.md + seeded/results.json (which checks catch which changes)."""
 import json, os, subprocess, sys, time
 V = os.path.dirname(os.path.dirname(os.path.abspath(__file__)))
-ids = sys.argv[1:] or sorted(d for d in os.listdir(os.path.join(V, "seeded")) if os.path.isdir(os.path.join(V, "seeded", d)))
+WRITE_ONLY = "--write-only" in sys.argv   # only regenerate RESULTS.md from results.json (after parallel lanes were merged)
+ids = [a for a in sys.argv[1:] if not a.startswith("--")] or sorted(d for d in os.listdir(os.path.join(V, "seeded")) if os.path.isdir(os.path.join(V, "seeded", d)))
 res_path = os.path.join(V, "seeded", "results.json")
 res = json.load(open(res_path)) if os.path.exists(res_path) else {}
-for sid in ids:
+for sid in ([] if WRITE_ONLY else ids):
     meta = json.load(open(os.path.join(V, "seeded", sid, "meta.json")))
     t0 = time.time()
     r = subprocess.run([sys.executable, os.path.join(V, "tools", "seedtest.py"), sid], capture_output=True, text=True, cwd=V,
